@@ -167,6 +167,92 @@ fn thread_body(sh: Rc<Shared>, prog: Vec<Op>, tid_tag: u64) {
     }
 }
 
+/// The reader limit: the lock starts with all but `room` of its `MAX_READERS` read guards accounted
+/// for (hook `verif_adjust_readers`: as if that many guards had been taken and forgotten), then
+/// simulated threads call `try_read` and keep what they get.  "try_read succeeds only when the lock
+/// state admits it": no more than `room` of the calls may succeed, `try_write` must fail meanwhile,
+/// and after everything was given back the lock admits a writer and then a reader.
+/// Only non-blocking calls are used, so a wrong lock cannot hang the run.
+fn reader_limit_case(mut sim: Box<Sim>, opts: &RunOpts) -> RunOut {
+    let room = sim.dec.choose(K::Cfg, 3);
+    let nthreads = 1 + sim.dec.choose(K::Cfg, 3) as usize;
+    let calls = 1 + sim.dec.choose(K::Cfg, 3) as usize;
+    sim.cas_spurious_left = sim.dec.choose(K::Cfg, 5);
+    sim.cas_spurious = [0, 4, 16][sim.dec.choose(K::Cfg, 3) as usize];
+    sim.draw_strategy(nthreads);
+    let lock: Rc<RwLock<Tracked<u64>>> = Rc::new(RwLock::new(Tracked::new(7, "rwlock-data")));
+    let preload = RwLock::<Tracked<u64>>::VERIF_MAX_READERS - room;
+    let granted = Rc::new(Cell::new(0u32));
+    let kern = Kern;
+    sim.set_kernel(&kern);
+    lock.verif_adjust_readers(preload, true);
+    for i in 0..nthreads {
+        let (lock, granted) = (lock.clone(), granted.clone());
+        sim.spawn(
+            &format!("r{i}"),
+            Box::new(move || {
+                let c = sched::cur_tid();
+                let mut guards = Vec::new();
+                for _ in 0..calls {
+                    sched::sim().unwrap().threads[c].tag = TAG_IN_TRY;
+                    let r = lock.try_read();
+                    sched::sim().unwrap().threads[c].tag = 0;
+                    if let Some(g) = r {
+                        granted.set(granted.get() + 1);
+                        ev(|| format!("t{c} try_read at the limit -> guard ({} granted, room {room})", granted.get()));
+                        if granted.get() > room {
+                            sched::fail("try|read-granted-beyond-the-reader-limit", format!("{} read guards are accounted for (the limit is {}), try_read handed out one more", preload + granted.get() - 1, preload + room));
+                        }
+                        guards.push(g);
+                    } else {
+                        ev(|| format!("t{c} try_read at the limit -> None"));
+                    }
+                    sched::sim().unwrap().threads[c].tag = TAG_IN_TRY;
+                    let w = lock.try_write();
+                    sched::sim().unwrap().threads[c].tag = 0;
+                    if w.is_some() {
+                        sched::fail("try|write-granted-among-readers", format!("try_write succeeded while {} read guards are accounted for", preload));
+                    }
+                    sched::yield_now();
+                }
+                // guards are given back only after every thread made its calls
+                while !guards.is_empty() {
+                    let g = guards.pop();
+                    granted.set(granted.get() - 1);
+                    drop(g);
+                }
+            }),
+        );
+    }
+    let t0 = sim.mono_ns;
+    sched::run(&mut sim);
+    if sim.violation.is_none() {
+        lock.verif_adjust_readers(preload, false);
+        if lock.try_write().is_none() {
+            sim.violate("final|left-locked", "after the reader-limit run the lock does not admit a writer".to_string());
+        } else if lock.try_read().is_none() {
+            sim.violate("final|stale-waiting-state", "after the reader-limit run the lock does not admit a reader".to_string());
+        }
+    }
+    let mut out = RunOut {
+        violation: sim.violation.take(),
+        hash: sim.trace.hash,
+        shape: sim.trace.hash,
+        nontrivial: sim.switches >= 1,
+        sim_ns: sim.mono_ns - t0,
+        steps: sim.steps,
+        events: sim.trace.events.take().unwrap_or_default(),
+        decisions: std::mem::take(&mut sim.dec.log),
+        ..RunOut::default()
+    };
+    out.counters = std::mem::take(&mut sim.counters);
+    out.counters.insert("probe.reader_limit_runs", 1);
+    if opts.record {
+        out.sample = Some(json!({"family": "reader limit", "threads": nthreads, "try_read_calls_per_thread": calls, "room_below_the_limit": room}));
+    }
+    out
+}
+
 fn describe(progs: &[Vec<Op>]) -> Value {
     Value::Array(
         progs
@@ -193,7 +279,7 @@ impl Check for C02 {
         }
     }
     fn rule(&self) -> String {
-        "each case = one seeded run: 2..4 simulated threads with generated programs (<=6 ops of read/write/try_read/try_write/yield; mix drawn per run: all-readers-but-one, writers only, balanced, try-heavy) over 1..2 RwLocks; the decision stream picks scheduler strategy, the thread at every atomic op / futex call / tracked access, wake targets on both futex words, up to 3 spurious futex returns and EINTRs and up to 4 spurious weak-CAS failures; private and shared futex operations use separate wait queues. After the last guard is gone the lock must admit a writer and then a reader (try_write / try_read: a locked or waiting bit left behind would park the next blocking call for ever). Probe: two read guards at once. non-trivial = at least one thread parked in futex wait AND >=2 context switches; distinct = distinct hash of the full event sequence".into()
+        "each case = one seeded run: 2..4 simulated threads with generated programs (<=6 ops of read/write/try_read/try_write/yield; mix drawn per run: all-readers-but-one, writers only, balanced, try-heavy) over 1..2 RwLocks; the decision stream picks scheduler strategy, the thread at every atomic op / futex call / tracked access, wake targets on both futex words, up to 3 spurious futex returns and EINTRs and up to 4 spurious weak-CAS failures; private and shared futex operations use separate wait queues. After the last guard is gone the lock must admit a writer and then a reader (try_write / try_read: a locked or waiting bit left behind would park the next blocking call for ever). One run in 32 is the reader-limit family: the lock starts with MAX_READERS - room (room 0..2) read guards accounted for through the guarded hook verif_adjust_readers (the state after that many forgotten guards), 1..3 threads make try_read/try_write calls: no more than room read guards may be granted, no write guard. Probe: two read guards at once. non-trivial = at least one thread parked in futex wait AND >=2 context switches; distinct = distinct hash of the full event sequence".into()
     }
     fn assumptions(&self) -> Vec<String> {
         vec![
@@ -208,6 +294,9 @@ impl Check for C02 {
 
     fn run(&self, _case: u64, dec: Dec, opts: &RunOpts) -> RunOut {
         let mut sim = Sim::new(dec, SimCfg { record: opts.record, est_len: 250, ..SimCfg::default() });
+        if sim.dec.chance(K::Cfg, 1, 32) {
+            return reader_limit_case(sim, opts);
+        }
         let nthreads = 2 + sim.dec.choose(K::Cfg, 3) as usize;
         let nm = 1 + sim.dec.choose(K::Cfg, 2) as usize;
         sim.spurious_futex_left = sim.dec.choose(K::Cfg, 4);
